@@ -245,6 +245,8 @@ def main(pid, tier, seed):
         d = os.path.join(work, 'f%d' % k)
         desc = ptq.random_float_ruleset(rng, d, normalize_base=True)
         rdirs.append((d, {'kind': 'float_ruleset', 'base': desc['base']}))
+    from . import shapes
+    rdirs += [(d_, dict(desc_, kind=desc_.get('kind', desc_.get('shape')))) for d_, desc_ in shapes.all_special(rng, work)]
     for d, desc in rdirs:
         stt = stream_trace(tid + 1, d, desc)
         if stt is not None:
